@@ -185,7 +185,27 @@ func TestC19RoundTrip(t *testing.T) {
 			c.Failf("C19/roundtrip-rejected", "untouched key file with its own password %s: %v", showPw(pw), o)
 			return
 		}
+		c.Note("opened with the password (%s): %v", map[bool]string{false: "ReadKeyFile+Decrypt", true: "Manager.Start/Unlock/GetKeyStore"}[viaMgr], o)
 		checkKeyStore(c, "decrypted key store", o.ks, entropy, rv)
+
+		// the same file copied to another wallet directory (restored backup, other data directory)
+		if viaMgr {
+			mdir, mname, _ := placeFile(dir, 2, raw)
+			mo := openViaManager(mdir, mname, pw)
+			c.Class("moved-file")
+			c.Note("the file copied to another directory, opened by a Manager there: %v", mo)
+			if mo.err == nil && mo.pan == nil {
+				c.R.Count("kdf_calls", 1)
+				checkKeyStore(c, "key store from the copied file", mo.ks, entropy, rv)
+			} else if mo.pan != nil {
+				c.Failf("C19/decrypt-panic-valid-file", "copied key file: %v [%s]", mo, mo.stack)
+			} else {
+				// genuine by-product finding: Write stores the struct field Path in the document and
+				// ReadKeyFile lets the document overwrite the real location
+				c.Failf("C19/moved-file-not-found", "a key file written by KeyFile.Write to %s and copied unchanged to %s is not usable through "+
+					"a Manager on the new directory: %v (the document's member \"Path\" overrides the location it was read from)", path, mdir, mo)
+			}
+		}
 
 		kf2, err := wallet.ReadKeyFile(path)
 		if err != nil {
@@ -245,7 +265,7 @@ func TestC19RoundTrip(t *testing.T) {
 			nonce2 := c.Bytes("nonce2", 12, 12)
 			rv2 := refViewOf(e2)
 			doc := refKeyFileJSON(rv2.addr0, refSeal(key, nonce2, e2), nonce2, sem.salt, 1700000000)
-			ro := open(c, dir, 1, doc, pw, false)
+			ro := open(c, dir, 1, doc, pw, c.Bool("interop-via-manager"))
 			c.R.Count("kdf_calls", 2)
 			c.Note("reference-written file for entropy %x: %v", e2, ro)
 			if ro.pan != nil {
